@@ -5,20 +5,21 @@ from .common import *
 from .tables import rows, is_true, is_false, pin
 
 EXPLANATION = (
-    "Static clauses of 'making a legal move yields the rules' successor': the effect summary of each move kind's "
-    'apply (path enumeration of the MIR, Board API opaque) is compared with FIDE tables: (R1) standard moves remove'
-    ' from/to, require the removed piece to equal the recorded capture, push the en-passant target computed by a '
-    'helper whose decision table is exactly {pawn double step -> skipped square}, lose exactly the rights given by '
-    'the 6-row mover table OR-ed with the 4-row captured-rook table (helpers tabulated on their whole domain when '
-    'they exist under their names; otherwise decided on the effect summary of apply with every helper inlined, on '
-    'one representative per cell of the partition the tested constants induce on the squares), and put the mover on'
-    ' the destination; (R2) castling relocates the matching rook (4-row table), loses both rights of the colour and'
-    ' clears the target; (R3) en passant removes the pawn behind the destination (per colour), clears the target, '
-    'preserves rights; (R4) promotion = standard + swap of a pawn for the chosen piece; (R5) the turn field is '
-    'written only by toggle_turn/set_turn and neither is reachable from apply/undo; (R6) castle constructor '
-    'squares; (R7) no placement/rights/ep argument depends on clocks, turn or repetition state; (R8) ChessMove '
-    "dispatches each method to the same method of the variant's payload. That apply never fails for a legal move "
-    'and successor correctness beyond these tables are NOT decided.'
+    "Static clauses of 'making a legal move yields the rules' successor': the effect summary of each move kind's apply (path "
+    'enumeration of the MIR, Board API opaque) is compared with FIDE tables: (R1) standard moves remove from/to, require the removed '
+    'piece to equal the recorded capture, push the en-passant target computed by a helper whose decision table is exactly {pawn double '
+    'step -> skipped square}, lose exactly the rights given by the 6-row mover table OR-ed with the 4-row captured-rook table (helpers '
+    'tabulated on their whole domain when they exist under their names; otherwise decided on the effect summary of apply with every '
+    'helper inlined, on one representative per cell of the partition the tested constants induce on the squares), and put the mover on '
+    'the destination; (R2) castling relocates the matching rook (4-row table), loses both rights of the colour and clears the target; '
+    '(R3) en passant removes the pawn behind the destination (per colour), clears the target, preserves rights; (R4) promotion = '
+    'standard + swap of a pawn for the chosen piece; (R5) the turn field is written only by toggle_turn/set_turn and neither is '
+    'reachable from apply/undo; (R6) castle constructor squares; (R7) no placement/rights/ep argument depends on clocks, turn or '
+    "repetition state; (R8) ChessMove dispatches each method to the same method of the variant's payload. That apply never fails for a "
+    'legal move and successor correctness beyond these tables are NOT decided. R1-rights-lost / R2 walk a constant look-up table row by'
+    ' row and evaluate tuple / Option equalities structurally; R1-ep-target-semantic decides the pushed target on the effect summary '
+    'when the helper is dissolved; new Board wrappers are looked into (Board API normalisation); (R9) through the game API the move '
+    'applied is the move handed in (= C14.R2).'
 )
 ASSUMPTIONS = [
     "rustc MIR construction, const evaluation and the chessfacts extractor are faithful",
